@@ -14,6 +14,7 @@
 #include <string.h>
 #include <sys/resource.h>
 #include <sys/types.h>
+#include <sys/wait.h>
 #include <time.h>
 #include <unistd.h>
 
@@ -383,6 +384,30 @@ pid_t sim_waitpid(pid_t pid, int *status, int options)
   if (ret >= 0 && status != NULL) *status = Int_val(Field(r, 1));
   install_errno();
   CAMLreturnT(pid_t, ret);
+}
+
+/* rewrites of the library may reach for these equivalents: same world calls */
+pid_t sim_wait(int *status) { return sim_waitpid(-1, status, 0); }
+int sim_dup(int fd) { return sim_fcntl(fd, F_DUPFD, 0); }
+int sim_waitid(idtype_t idtype, id_t id, siginfo_t *info, int options)
+{
+  if ((idtype != P_PID && idtype != P_ALL) || !(options & WEXITED) || (options & (WNOWAIT | WSTOPPED | WCONTINUED))) {
+    fprintf(stderr, "sim_waitid: unmodelled arguments\n");
+    abort();
+  }
+  int st = 0;
+  pid_t r = sim_waitpid(idtype == P_PID ? (pid_t) id : -1, &st, options & WNOHANG);
+  if (r < 0) return -1;
+  if (info != NULL) {
+    memset(info, 0, sizeof(*info));
+    if (r > 0) {
+      info->si_signo = SIGCHLD;
+      info->si_pid = r;
+      if (WIFEXITED(st)) { info->si_code = CLD_EXITED; info->si_status = WEXITSTATUS(st); }
+      else { info->si_code = WCOREDUMP(st) ? CLD_DUMPED : CLD_KILLED; info->si_status = WTERMSIG(st); }
+    }
+  }
+  return 0;
 }
 
 int sim_kill(pid_t pid, int sig)
